@@ -1,5 +1,6 @@
 """C01 — curve evaluation equals the B-spline / NURBS definition at every parameter."""
 from common import *  # noqa: F401,F403
+import units
 
 RULE = ("random valid curves: degree 0..4, 0..3 distinct interior knots with multiplicities 1..p+1, intervals [0,1], [-2,1], "
         "[-1,1], [a,b], grid and large-denominator knots, scalar/2-D/3-D rational points, weights none/ones/const/positive; "
@@ -34,6 +35,9 @@ def run_case(ctx, case):
     rec.count("rep", rep)
     rec.count("degree", str(kv_info(c["U"])[0]))
     rec.count("weights", "rational" if W is not None else "polynomial")
+    ks_ = sorted(set(U))
+    if rep == "fraction" and not any(y - x < F(1, 10**6) for x, y in zip(ks_[:-1], ks_[1:])):
+        units.tie_speval(rec, drv, case, U)          # the per-span power-basis tables themselves, entry by entry
     if rep == "fraction":
         # the same curve on numerically equal python-int / float knots evaluated first (tables memoised on knot tuples would be theirs)
         for tw in mixed_twins(U, P, W):
